@@ -61,9 +61,12 @@ ASSUMPTIONS = [
 
 def prepare(ctx):
     """instrument the scratch copy, regenerate the IR, build the harness.
-    Returns (harness binary or None, ir_path or None, log)"""
+    Returns (harness binary or None, ir_path or None, log).  ctx.wg_instrumented says whether the
+    yield points are in (False: the source uses a construct the instrumenter rejects; the harness
+    is then built on the plain source and only the free-running stress can run)."""
     repo = ctx.copy_repo()
     ctx.harness_module()
+    ctx.wg_instrumented = False
     xl, log = ctx.build_harness("xlate_conc")
     if not xl:
         return None, None, "xlate_conc build failed:\n" + log
@@ -71,13 +74,17 @@ def prepare(ctx):
     ir = os.path.join(ctx.gen, "WGProgGen.v")
     rc, out = vlib.sh([xl, "-src", src, "-instr", src, "-ir", ir, "-funcs", "Add,Wait,Count",
                        "-codes", "Add=1,Wait=2,Count=3"], timeout=120)
+    note = ""
     if rc != 0:
-        return None, None, "xlate_conc failed on gsync/selectable_wait_group.go:\n" + out
+        note = "xlate_conc cannot instrument gsync/selectable_wait_group.go:\n" + out
+        ir = None
+    else:
+        ctx.wg_instrumented = True
     ctx.add_repo_file("gsync/export_verif.go", EXPORT_VERIF)
     binp, log = ctx.build_harness("c01", tags="verif wginstr")
     if not binp:
-        return None, ir, "harness build against the instrumented current tree failed:\n" + log
-    return binp, ir, ""
+        return None, ir, note + "\nharness build against the current tree failed:\n" + log
+    return binp, ir, note
 
 
 def tie(ctx, ir):
@@ -96,7 +103,13 @@ def tie(ctx, ir):
     if rc2 == 0:
         return False, "pinned", ("the source's Add/Wait/Count are the pinned two-word algorithm "
                                  "(gen_prog = hand_prog_orig), not the pair-CAS code the theorems are about")
-    return False, "unknown", "gen_prog <> hand_prog:\n" + out[-1500:]
+    # same shared-memory operations at the same sites?  then the machine's micro-steps still line
+    # up with the code's and the per-step comparison with the model stays meaningful
+    rc3, _ = ctx.coq_eval("WGTieSites", "From Coq Require Import List.\nFrom GT Require Import Base.ConcIR.\nFrom GT Require Import WGProg.\n"
+                          "From GTgen Require Import WGProgGen.\n"
+                          "Definition same_sites : map func_site_ops gen_prog = map func_site_ops hand_prog := eq_refl.\n",
+                          timeout=300)
+    return False, ("same-sites" if rc3 == 0 else "unknown"), "gen_prog <> hand_prog:\n" + out[-1500:]
 
 
 def run_harness(ctx, binp, runs, timeout=3000):
@@ -127,7 +140,7 @@ def judge(ctx, judge_name, terms, tag, shard=None):
     formulations of the C01 monitor (streaming c01_ok, per-call c01_decl) disagree on the
     recorded trace; 9 = the words do not decode.  Returns (bad [(index, verdict)], nontrivial, err)."""
     if shard is None:
-        shard = max(100, -(-len(terms) // 16))
+        shard = min(3000, max(100, -(-len(terms) // 16)))
     # canary: a word list that does not decode is appended; the judge must flag it (code 9),
     # otherwise the evaluation or the parsing of its output is broken and "0 bad" means nothing
     canary = len(terms)
@@ -301,8 +314,40 @@ def hist(it):
 
 
 # ---------------------------------------------------------------- the check
+def stress_run(ctx, binp, judge_name, secs, tag, max_traces=1500):
+    """free-running run of the real code (Go scheduler in charge): returns (failing inputs, info).
+    Failing inputs: programs whose at-rest clauses failed (STRESS-BAD lines) and logged traces
+    that the C01 monitor rejects (judged in Coq, trace only)."""
+    prefix = os.path.join(ctx.scratch, "stress_%s" % tag)
+    rc, out = vlib.sh([binp, "-mode", "stress", "-secs", str(secs), "-seed", str(ctx.seed),
+                       "-out", prefix, "-max", str(max_traces)], timeout=int(secs) + 120)
+    found = []
+    for m in re.finditer(r"^STRESS-BAD (\{.*\})$", out, re.M):
+        b = json.loads(m.group(1))
+        found.append({"kind": "stress-at-rest", "program": prog_str(b["progs"]), "progs": b["progs"],
+                      "what": b["what"], "schedule": "free-running Go scheduler (not replayable step by step)"})
+    info = (out.strip().splitlines() or ["no output"])[-1]
+    if "DATA RACE" in out:
+        found.append({"kind": "stress-race", "what": "the race detector reported a data race", "detail": out[-2500:]})
+    if rc != 0 and not found:
+        return found, "stress run failed: " + out[-500:]
+    if os.path.isfile(prefix + ".cases"):
+        terms = open(prefix + ".cases").read().splitlines()
+        jsons = [json.loads(l) for l in open(prefix + ".jsonl").read().splitlines()]
+        if terms:
+            bad, _, err = judge(ctx, "c01_trace_judge", terms, "stress_" + tag)
+            if err:
+                return found, info + "; judging the logged traces failed: " + err[:300]
+            for i, code in bad:
+                if code == 1:
+                    found.append({"kind": "stress-trace", "case": view(jsons[i]),
+                                  "what": "the logged call/return/observe events violate the C01 monitor",
+                                  "schedule": "free-running Go scheduler (log order = stamp order)"})
+            info += "; %d logged traces judged by c01_ok" % len(terms)
+    return found, info
+
+
 def run_check(ctx, pid):
-    judge_name = {"C01": "c01_judge", "C02": "c02_judge"}[pid]
     ctx.trusted = TRUSTED
     ctx.assumptions = ASSUMPTIONS
     ctx.coq_targets = COQ_TARGETS
@@ -314,6 +359,7 @@ def run_check(ctx, pid):
     if not ok:
         broken.append(("theorem file Props/%s.v" % pid, detail, {"kind": "proof_obligation"}))
     binp, ir, log = prepare(ctx)
+    which = "unknown"
     if ir:
         tok, which, tdetail = tie(ctx, ir)
         ctx.log("tie (T):", "OK" if tok else "BROKEN", "-", tdetail.splitlines()[0])
@@ -322,85 +368,108 @@ def run_check(ctx, pid):
                                      "is the machine of the theorems (WGDenote.denote_current)"}
         if not tok:
             broken.append(("tie WGProgGen.gen_prog = WGProg.hand_prog (translator tie)", tdetail, {"kind": "tie"}))
+    elif binp:
+        ctx.log("tie (T): BROKEN - the source is outside the instrumenter's subset")
+        ctx.cov["tie_T"] = {"ok": False, "which": "not-instrumentable"}
+        broken.append(("instrumentation / translation of gsync/selectable_wait_group.go", log[-2000:], {"kind": "tie"}))
     if not binp:
-        ctx.report({"unchecked": "instrumentation / harness build against the current tree",
+        ctx.report({"unchecked": "harness build against the current tree",
                     "detail": log[-3000:]}, {"kind": "build"}, failing_input=False)
         for what, d, feat in broken:
             ctx.report({"unchecked": what, "detail": d}, feat, failing_input=False)
         return
+    # the machine's micro-steps line up with the code's only when the shared-memory operations are
+    # the modelled ones; otherwise the recorded traces are judged by the monitor alone
+    structural = which in ("current", "same-sites")
+    judge_name = {"C01": "c01", "C02": "c02"}[pid] + ("_judge" if structural else "_trace_judge")
+    ctx.cov["judging"] = ("per-step comparison with the model + monitor" if structural else
+                          "trace only (the source's shared-memory operations are not the modelled ones): monitor verdicts, no model comparison")
     quick = ctx.tier == "quick"
-    t0 = time.time()
-    if quick:
-        runs = [("corpus", ["-mode", "corpus"]),
-                ("pb1", ["-mode", "pb", "-pre", 1, "-tmoevery", 7]),
-                ("pb2", ["-mode", "pb", "-pre", 2, "-progs", "0,2,4,12,14", "-tmoevery", 15]),
-                ("random", ["-mode", "random", "-n", 24, "-tmoevery", 5]),
-                ("randprog", ["-mode", "randprog", "-n", 70, "-tmoevery", 5])]
-    else:
-        runs = [("corpus", ["-mode", "corpus"]),
-                # every schedule of every 2-goroutine program of the catalogue
-                ("exh2", ["-mode", "exhaustive", "-progs", "2,3,4,7,8,12,13,14,15,16", "-max", 400000, "-tmoevery", 500]),
-                # every schedule with <= 2 preemptions of every program (3 and 4 goroutines included)
-                ("pb2", ["-mode", "pb", "-pre", 2, "-tmoevery", 50]),
-                ("pb3", ["-mode", "pb", "-pre", 3, "-progs", "0,1,5", "-max", 60000, "-tmoevery", 200]),
-                ("exh3", ["-mode", "exhaustive", "-progs", "0", "-max", 60000, "-tmoevery", 200]),
-                ("random", ["-mode", "random", "-n", 600, "-tmoevery", 20]),
-                ("randprog", ["-mode", "randprog", "-n", 3000, "-tmoevery", 20])]
-    terms, jsons, enums, err = run_harness(ctx, binp, runs)
-    if err:
-        ctx.report({"unchecked": "harness run", "detail": err}, {"kind": "harness"}, failing_input=False)
-        return
-    # corpus files (minimised past failures of either gsync property) are replayed first
-    cands = []
-    for d in ("C01", "C02"):
-        cdir = os.path.join(vlib.VERIF, "corpus", d)
-        for n in sorted(os.listdir(cdir)) if os.path.isdir(cdir) else []:
-            if n.endswith(".json"):
-                c = json.load(open(os.path.join(cdir, n)))
-                cands.append((c["progs"], c["sched"]))
-    cterms, cjsons = replay_batch(ctx, binp, cands, "corpusfile")
-    for t, j in zip(cterms, cjsons):
-        if t:
-            j["kind"] = "corpus-file"
-            terms.insert(0, t)
-            jsons.insert(0, j)
-    ctx.log("harness: %d cases in %.1fs" % (len(terms), time.time() - t0))
-    t0 = time.time()
-    bad, nt, err = judge(ctx, judge_name, terms, "cases")
-    if err:
-        ctx.report({"unchecked": "in-kernel evaluation of the correspondence", "detail": err},
-                   {"kind": "coq_eval"}, failing_input=False)
-        return
-    ctx.log("judged in Coq: %d cases in %.1fs, %d bad" % (len(terms), time.time() - t0, len(bad)))
-    fails = [(i, c) for i, c in bad if c == 1]
-    diffs = [(i, c) for i, c in bad if c == 2]
-    if ctx.cov.get("tie_T", {}).get("which") == "pinned" and (not quick or os.environ.get("VERIF_WG_ORIG")):
-        # the source is the pinned algorithm: check that the recorded traces are those of the
-        # [_orig] machine, about which the refutation theorems speak
-        obad, _, oerr = judge(ctx, judge_name + "_orig", terms, "orig")
-        if not oerr:
-            od = sum(1 for _, c in obad if c == 2)
-            ctx.cov["pinned_model_differences"] = od
-            ctx.log("the %d traces compared with the model of the pinned code (wgo_exec): %d differ" % (len(terms), od))
+    terms, jsons, enums, fails, diffs, nt = [], [], [], [], [], 0
+    stress_found = []
+    if ctx.wg_instrumented:
+        t0 = time.time()
+        if quick:
+            runs = [("corpus", ["-mode", "corpus"]),
+                    ("pb1", ["-mode", "pb", "-pre", 1, "-tmoevery", 7]),
+                    ("pb2", ["-mode", "pb", "-pre", 2, "-progs", "0,2,4,12,14", "-tmoevery", 15]),
+                    ("random", ["-mode", "random", "-n", 24, "-tmoevery", 5]),
+                    ("randprog", ["-mode", "randprog", "-n", 70, "-tmoevery", 5])]
+        else:
+            runs = [("corpus", ["-mode", "corpus"]),
+                    # every schedule of every 2-goroutine program of the catalogue
+                    ("exh2", ["-mode", "exhaustive", "-progs", "2,3,4,7,8,12,13,14,15,16", "-max", 400000, "-tmoevery", 500]),
+                    # every schedule with <= 2 preemptions of every program (3 and 4 goroutines included)
+                    ("pb2", ["-mode", "pb", "-pre", 2, "-tmoevery", 50]),
+                    ("pb3", ["-mode", "pb", "-pre", 3, "-progs", "0,1,5", "-max", 60000, "-tmoevery", 200]),
+                    ("exh3", ["-mode", "exhaustive", "-progs", "0", "-max", 60000, "-tmoevery", 200]),
+                    ("random", ["-mode", "random", "-n", 600, "-tmoevery", 20]),
+                    ("randprog", ["-mode", "randprog", "-n", 3000, "-tmoevery", 20])]
+        if not structural and quick:
+            # a different algorithm (e.g. lock based) has many more yield points per call: cap the
+            # enumerations of the quick tier; the widened search below has its own caps
+            runs = [(t, a + (["-max", 1500] if a[1] in ("pb", "exhaustive") else [])) for t, a in runs]
+        terms, jsons, enums, err = run_harness(ctx, binp, runs)
+        if err:
+            ctx.report({"unchecked": "harness run", "detail": err}, {"kind": "harness"}, failing_input=False)
+            return
+        # corpus files (minimised past failures of either gsync property) are replayed first
+        cands = []
+        for d in ("C01", "C02"):
+            cdir = os.path.join(vlib.VERIF, "corpus", d)
+            for n in sorted(os.listdir(cdir)) if os.path.isdir(cdir) else []:
+                if n.endswith(".json"):
+                    c = json.load(open(os.path.join(cdir, n)))
+                    cands.append((c["progs"], c["sched"]))
+        cterms, cjsons = replay_batch(ctx, binp, cands, "corpusfile")
+        for t, j in zip(cterms, cjsons):
+            if t:
+                j["kind"] = "corpus-file"
+                terms.insert(0, t)
+                jsons.insert(0, j)
+        ctx.log("harness: %d cases in %.1fs" % (len(terms), time.time() - t0))
+        t0 = time.time()
+        bad, nt, err = judge(ctx, judge_name, terms, "cases")
+        if err:
+            ctx.report({"unchecked": "in-kernel evaluation of the correspondence", "detail": err},
+                       {"kind": "coq_eval"}, failing_input=False)
+            return
+        ctx.log("judged in Coq (%s): %d cases in %.1fs, %d bad" % (judge_name, len(terms), time.time() - t0, len(bad)))
+        fails = [(i, c) for i, c in bad if c == 1]
+        diffs = [(i, c) for i, c in bad if c == 2]
+        if which == "pinned" and (not quick or os.environ.get("VERIF_WG_ORIG")):
+            # the source is the pinned algorithm: check that the recorded traces are those of the
+            # [_orig] machine, about which the refutation theorems speak
+            obad, _, oerr = judge(ctx, {"C01": "c01", "C02": "c02"}[pid] + "_judge_orig", terms, "orig")
+            if not oerr:
+                od = sum(1 for _, c in obad if c == 2)
+                ctx.cov["pinned_model_differences"] = od
+                ctx.log("the %d traces compared with the model of the pinned code (wgo_exec): %d differ" % (len(terms), od))
     searched = len(terms)
     if (broken or diffs or ctx.cov.get("monitor_cross_check_disagreements")) and not fails:
         # something broke but no recorded trace violates the property yet: search schedules on
-        # the real code before saying that no failing input was found
+        # the real code, then let the Go scheduler loose on it for a moment, before saying that
+        # no failing input was found
         ctx.log("an obligation / the correspondence broke without a failing input: widening the schedule search")
-        wterms, wjsons, wenums, err = run_harness(ctx, binp, [
-            ("w_pb2", ["-mode", "pb", "-pre", 2, "-tmoevery", 0]),
-            ("w_exh", ["-mode", "exhaustive", "-progs", "2,3,4", "-max", 20000, "-tmoevery", 0]),
-            ("w_rand", ["-mode", "randprog", "-n", 1500, "-tmoevery", 0])])
-        if not err:
-            wbad, _, err = judge(ctx, judge_name, wterms, "widen")
+        if ctx.wg_instrumented:
+            wterms, wjsons, wenums, err = run_harness(ctx, binp, [
+                ("w_pb2", ["-mode", "pb", "-pre", 2, "-tmoevery", 0]),
+                ("w_exh", ["-mode", "exhaustive", "-progs", "2,3,4,12,14", "-max", 20000, "-tmoevery", 0]),
+                ("w_rand", ["-mode", "randprog", "-n", 1500, "-tmoevery", 0])])
             if not err:
-                base = len(terms)
-                terms += wterms
-                jsons += wjsons
-                enums += wenums
-                searched = len(terms)
-                fails += [(base + i, c) for i, c in wbad if c == 1]
-                diffs += [(base + i, c) for i, c in wbad if c == 2]
+                wbad, _, err = judge(ctx, judge_name, wterms, "widen")
+                if not err:
+                    base = len(terms)
+                    terms += wterms
+                    jsons += wjsons
+                    enums += wenums
+                    searched = len(terms)
+                    fails += [(base + i, c) for i, c in wbad if c == 1]
+                    diffs += [(base + i, c) for i, c in wbad if c == 2]
+        if not fails:
+            stress_found, sinfo = stress_run(ctx, binp, judge_name, 3 if ctx.wg_instrumented else 6, "search")
+            ctx.cov["stress_search"] = sinfo
+            ctx.log("free-running stress:", sinfo, "- %d failing" % len(stress_found))
     # 1. failing inputs (verdict 1) first: fewest preemptions / shortest first, minimised; they
     #    get the replay slots
     fails.sort(key=lambda ic: (jsons[ic[0]]["preemptions"], len(jsons[ic[0]]["sched"]), ic[0]))
@@ -425,28 +494,35 @@ def run_check(ctx, pid):
                "verdict": "the trace recorded from the real code violates the %s monitor (%s)" % (
                    pid, "c01_ok = c01_spec on this well-formed trace" if pid == "C01" else "c02_ok / WaitTimeout probe"),
                "expected": "c01_ok = true" if pid == "C01" else "c02_ok = true and WaitTimeout probe = (nil iff sum of deltas = 0)",
+               "judging": ctx.cov["judging"],
                "also_unchecked": [w for w, _, _ in broken],
                "replay_cmd": "./check %s --replay <this file>" % pid}
         ctx.report(rep, features(j, code, pid), failing_input=True)
+    for f in stress_found[:2]:
+        rep = dict(f)
+        rep["verdict"] = "failing input found by the free-running run of the real code"
+        rep["also_unchecked"] = [w for w, _, _ in broken]
+        ctx.report(rep, {"kind": f["kind"]}, failing_input=True)
     # 2. then what only differs from the model, and the obligations that do not check - with
     #    no-failing-input-found when the search above found no violating schedule
     if ctx.cov.get("monitor_cross_check_disagreements"):
         ctx.report({"unchecked": "cross-check of the two formulations of the C01 monitor (c01_ok vs c01_decl) on the recorded traces",
                     "detail": "%d traces judged differently" % ctx.cov["monitor_cross_check_disagreements"]},
                    {"kind": "monitor_cross_check"}, failing_input=False)
-    if not fails:
+    if not fails and not stress_found:
         for i, code in diffs[:2]:
             j = jsons[i]
             rep = {"case": view(j), "replay_input": {"progs": j["progs"], "sched": j["sched"]},
                    "unchecked": "correspondence: the recorded trace satisfies the monitor but differs from the model's trace for the same schedule",
-                   "searched": "%d schedules on the implementation, none violates the monitor" % searched,
+                   "searched": "%d schedules on the implementation and a free-running stress, none violates the monitor" % searched,
                    "replay_cmd": "./check %s --replay <this file>" % pid}
             ctx.report(rep, {"kind": "correspondence", "code": 2}, failing_input=False)
         if diffs:
             ctx.violations += ["(not written)"] * max(0, len(diffs) - 2)
         for what, d, feat in broken:
             ctx.report({"unchecked": what, "detail": d,
-                        "searched": "%d schedules on the implementation, none violates the monitor" % searched},
+                        "searched": "%d schedules on the implementation (%s) and a free-running stress (%s), none violates the monitor" % (
+                            searched, ctx.cov["judging"], ctx.cov.get("stress_search", "not run"))},
                        feat, failing_input=False)
     # thorough: free-running stress under the race detector (supports the tie; not a proof)
     if not quick:
@@ -470,26 +546,27 @@ def run_check(ctx, pid):
         "enumerations": enums,
         "distinct_traces": vlib.distinct_count([[j["progs"], [[o["tid"], o["ev"], o["val"], o["count"], o["closed"], o["site"]] for o in j["obs"]]] for j in jsons]),
         "exhaustive": (not quick),
-        "exhaustive_note": "thorough: every schedule of every 2-goroutine catalogue program (2,3,4,7,8,12-16; 12-14 exercise Add(0), 15-16 Add(+3)/Add(-3)/Add(-2)) and of program 0, every <=2-preemption schedule of the whole catalogue (3 and 4 goroutines), <=3 preemptions for programs 0,1,5; quick: every <=1-preemption schedule of the catalogue, <=2 for three programs, plus random schedules and random programs; counts per program in `enumerations` (complete = the enumeration finished below its cap)",
+        "exhaustive_note": "thorough: every schedule of every 2-goroutine catalogue program (2,3,4,7,8,12-16; 12-14 exercise Add(0), 15-16 Add(+3)/Add(-3)/Add(-2)) and of program 0, every <=2-preemption schedule of the whole catalogue (3 and 4 goroutines), <=3 preemptions for programs 0,1,5; quick: every <=1-preemption schedule of the catalogue, <=2 for five programs, plus random schedules and random programs; counts per program in `enumerations` (complete = the enumeration finished below its cap)",
         "samples": [view(j) for j in jsons[:1] + jsons[len(jsons) // 2:len(jsons) // 2 + 1]],
-        "violating_cases": len(fails), "model_differences": len(diffs),
+        "violating_cases": len(fails) + len(stress_found), "model_differences": len(diffs),
     })
     ctx.log("correspondence: %d cases, %d steps, %d violate the monitor, %d differ from the model" % (
         len(jsons), ctx.cov["steps_compared"], len(fails), len(diffs)))
 
 
 def stress(ctx):
+    """thorough tier: 20 s of free-running runs under the race detector"""
     binr, log = ctx.build_harness("c01", tags="verif wginstr", race=True)
     if not binr:
         ctx.cov["stress_race"] = "not run: race build failed (cgo/gcc unavailable?)"
         ctx.log("stress: race build failed, skipped")
         return
-    rc, out = vlib.sh([binr, "-mode", "stress", "-n", "3000", "-seed", str(ctx.seed)], timeout=900)
-    ctx.cov["stress_race"] = out.strip().splitlines()[-1] if out.strip() else "no output"
-    if rc != 0 or "DATA RACE" in out:
-        ctx.report({"unchecked": "free-running stress run under the race detector", "detail": out[-3000:]},
-                   {"kind": "stress"}, failing_input=False)
-    ctx.log("stress:", ctx.cov["stress_race"])
+    found, info = stress_run(ctx, binr, "c01_trace_judge", 20, "race", max_traces=3000)
+    ctx.cov["stress_race"] = info
+    for f in found[:2]:
+        ctx.report(dict(f, verdict="failing input found by the free-running run under the race detector"),
+                   {"kind": f["kind"]}, failing_input=True)
+    ctx.log("stress (-race):", info, "- %d failing" % len(found))
 
 
 def replay(ctx, pid, path):
@@ -509,7 +586,11 @@ def replay(ctx, pid, path):
     if not terms[0]:
         print("replay run failed")
         return 2
-    judge_name = {"C01": "c01_judge", "C02": "c02_judge"}[pid]
+    tok, which = False, "unknown"
+    if ir:
+        tok, which, _ = tie(ctx, ir)
+    structural = which in ("current", "same-sites")
+    judge_name = {"C01": "c01", "C02": "c02"}[pid] + ("_judge" if structural else "_trace_judge")
     bad, _, err = judge(ctx, judge_name, [terms[0]], "replay")
     print(json.dumps(view(jsons[0]), indent=1))
     if err:
